@@ -22,7 +22,7 @@ RULE = ("matrices: every 0/1 pattern (distinct values) of the upper triangle (sy
         "for n<=3, structured families (empty, full, diagonal only, no diagonal, empty first/middle/last rows, single row, random densities) "
         "for n=4..5 (quick) / ..6 (thorough); for each matrix ALL windows 0<=i0<=i1<=n, 0<=j0<=j1<=n x read chunk sizes from "
         "{1,2,3,nnz,nnz+1,1e7} x {dense, sparse, as_pixels+index}; slice spellings (negative, open, scalar, 1-tuple) exhaustively for n<=4; "
-        "arg_prune_partition/get_spans on random monotone offset arrays; one evaluation = one (matrix, chunk size, window, form) query; "
+        "value columns rotate over int64 / int32 / float64 (multiples of 1/8) / an extra column selected with field=; as_pixels also with join=True; each collection is also written into a nested group of a two-collection file; arg_prune_partition/get_spans on random monotone offset arrays; one evaluation = one (matrix, chunk size, window, form) query; "
         "non-trivial = window with 0<i1-i0 and 0<j1-j0 on a non-empty matrix; distinct by (matrix, window, chunk size)")
 TRUSTED = ["h5py raw reads of pixels/bin1_id, bin2_id, count and indexes/bin1_offset give the stored columns (they are the model's input and the oracle's reference)",
            "scipy coo_matrix.toarray sums entries with equal coordinates (modelled by look)"]
